@@ -98,6 +98,23 @@ def scenarios(root):
     jobdoc("jobdoc-update-call", {"x": 1}, {"x": 2, "z": {"k": 1}}, lambda job: job.document.update({"x": 2, "z": {"k": 1}}))
     jobdoc("jobdoc-first-access-assignment", {"x": 1}, {"w": 0}, lambda job: setattr(job, "document", {"w": 0}))
 
+    # the new content is the LIVE document object of another job (dst.document = src.document)
+    other_doc = {"from": "other", "big": BIG}
+
+    def setup_o(tpl):
+        _mk(tpl, jobs=(SP1, SP2), docs={json.dumps(SP1): {"x": 1}, json.dumps(SP2): other_doc})
+
+    def writer_o(ctx):
+        p = signac.Project(root)
+        j1, j2 = p.open_job(SP1), p.open_job(SP2)
+        C.mark("BEGIN")
+        j1.document = j2.document
+        C.mark("END")
+    S["jobdoc-assign-other-jobs-document"] = dict(
+        setup=setup_o, writer=writer_o, reader=S["jobdoc-reset"]["reader"],
+        targets=[(jdir(SP1) + "/" + DOC, "json", {"x": 1}, other_doc), (jdir(SP2) + "/" + DOC, "json", other_doc, other_doc)],
+        reader_accepts=[{"x": 1}, other_doc])
+
     def setup_p(tpl):
         _mk(tpl, pdoc={"p": 1})
 
@@ -192,7 +209,7 @@ def scenarios(root):
 
 QUICK = ["jobdoc-absent-to-small", "jobdoc-small-to-big", "jobdoc-reset", "job-clear-fresh-handle", "projectdoc-update",
          "projectdoc-first-access-assignment", "buffered-flush-two-docs", "cache-first-write", "cache-growing", "cache-shrinking",
-         "cache-unchanged", "cache-growing-after-crash-stray-complete", "cache-growing-after-crash-stray-torn"]
+         "cache-unchanged", "cache-growing-after-crash-stray-complete", "cache-growing-after-crash-stray-torn", "jobdoc-assign-other-jobs-document"]
 # document scenarios that are also run with synced_collections' thread-lock mode switched off: there the library writes a
 # file atomically only if the collection was created with write_concern=True (which is what signac must ask for)
 NOLOCK = ["jobdoc-absent-to-small", "jobdoc-small-to-big", "jobdoc-reset", "job-clear-fresh-handle", "projectdoc-update",
